@@ -442,6 +442,8 @@ func TestHistories(t *testing.T) {
 		fmt.Fprintf(sig, "%s|", c)
 		hasErrSW, hasBoundary, wraps := false, false, false
 		done := 0
+		var hist []string
+		ssc0 := hex.EncodeToString(ssc)
 		for i := 0; i < n; i++ {
 			label := fmt.Sprintf("s%d", i)
 			s := drawShape(rt, c, label, f15open)
@@ -485,6 +487,9 @@ func TestHistories(t *testing.T) {
 				wraps = true
 			}
 			fmt.Fprintf(sig, "%s/%d/%d/%v/%d;", cl, lenClass(s.nc), lenClass(s.ne), rsw == 0x9000, lenClass(rlen))
+			if len(hist) < 60 {
+				hist = append(hist, fmt.Sprintf("%s ins=%02x p1p2=%02x%02x nc=%d ne=%d -> rlen=%d sw=%04x", cl, s.ins, p1, p2, s.nc, s.ne, rlen, rsw))
+			}
 		}
 		// the exchange after the last one still authenticates on both sides
 		last := w.state(0xB0, 0, 0, nil, 1, []byte{0x5A}, 0x9000)
@@ -499,7 +504,10 @@ func TestHistories(t *testing.T) {
 			w.nakedInformative(rt)
 		}
 		class := fmt.Sprintf("%s-len%s", c, map[bool]string{true: "1-2", false: "3+"}[done < 3])
-		evid.Case(class, done >= 3 && (hasErrSW || hasBoundary), fmt.Sprintf("%x", sig.Sum64()), nil)
+		evid.CaseFn(class, done >= 3 && (hasErrSW || hasBoundary), fmt.Sprintf("%x", sig.Sum64()), func() any {
+			return map[string]any{"alg": string(c), "kenc": hex.EncodeToString(kenc), "kmac": hex.EncodeToString(kmac), "initial_ssc": ssc0,
+				"history": hist, "ssc_wrapped": wraps}
+		})
 	})
 }
 
